@@ -171,29 +171,42 @@ func sitesOf(fn *ssa.Function) ([]ssa.CallInstruction, bool) {
 	if ix == nil {
 		ix = &siteIndex{sites: map[*ssa.Function][]ssa.CallInstruction{}, escapes: map[*ssa.Function]bool{}}
 		siteIndexes[prog] = ix
+		// what a synthetic function (bound-method wrapper, thunk, pointer-receiver wrapper) forwards to. Such
+		// wrappers are created on demand (method sets), so their mere existence says nothing: the target escapes
+		// only if real code uses the wrapper.
+		forwards := func(w *ssa.Function) []*ssa.Function {
+			var out []*ssa.Function
+			for _, b := range w.Blocks {
+				for _, ins := range b.Instrs {
+					if call, ok := ins.(ssa.CallInstruction); ok {
+						if h := call.Common().StaticCallee(); h != nil {
+							out = append(out, h)
+						}
+					}
+				}
+			}
+			return out
+		}
 		for g := range ssautil.AllFunctions(prog) {
-			if g.Blocks == nil {
+			if g.Blocks == nil || g.Synthetic != "" {
 				continue
 			}
-			inMod := g.Pkg != nil && strings.HasPrefix(g.Pkg.Pkg.Path(), Mod)
-			if !inMod {
-				// wrappers and thunks have no package; closures inherit it
-				root := g
-				for root.Parent() != nil {
-					root = root.Parent()
-				}
-				if root.Pkg == nil && g.Synthetic == "" {
-					continue
-				}
+			root := g
+			for root.Parent() != nil {
+				root = root.Parent()
+			}
+			if root.Pkg == nil || !strings.HasPrefix(root.Pkg.Pkg.Path(), Mod) {
+				continue
 			}
 			for _, b := range g.Blocks {
 				for _, ins := range b.Instrs {
 					var callee ssa.Value
 					if call, ok := ins.(ssa.CallInstruction); ok {
 						if h := call.Common().StaticCallee(); h != nil {
-							if g.Synthetic != "" {
-								// a bound-method wrapper or thunk forwarding to h: h escapes as a value
-								ix.escapes[h] = true
+							if h.Synthetic != "" && h.Blocks != nil {
+								for _, t := range forwards(h) {
+									ix.escapes[t] = true
+								}
 							} else {
 								ix.sites[h] = append(ix.sites[h], call)
 							}
@@ -204,8 +217,15 @@ func sitesOf(fn *ssa.Function) ([]ssa.CallInstruction, bool) {
 						if *op == nil || *op == callee {
 							continue
 						}
-						if h, ok := (*op).(*ssa.Function); ok {
-							ix.escapes[h] = true
+						h, ok := (*op).(*ssa.Function)
+						if !ok {
+							continue
+						}
+						ix.escapes[h] = true
+						if h.Synthetic != "" && h.Blocks != nil {
+							for _, t := range forwards(h) {
+								ix.escapes[t] = true
+							}
 						}
 					}
 				}
